@@ -50,7 +50,7 @@ COMPONENTS = {
 }
 ASSUMPTIONS = [
     "a forked child of the zygote that executed no FRAME operation is equivalent to a fresh interpreter for process-wide state",
-    "SAT clause sets are compared modulo the numbering of auxiliary robdd_ variables (store indices are not an answer)",
+    "SAT encodings are compared by meaning: the model set projected on the user variables (clause order, numbering and naming of auxiliary variables are not an answer)",
     "under an abort fault a surviving client may fail loudly where the alone run succeeded, never succeed differently",
     "known findings are keyed by the process-wide variable the divergence is attributed to",
 ]
@@ -558,10 +558,9 @@ class _SatClient:
         cl = self.cl
         if o["op"] == "solve":
             res = cl.m.solve()
-            model = [cl.m.value(v) for v in cl.vars] if res else None
-            return {"sat": bool(res), "model": model}
+            return {"sat": bool(res)}   # which model is exposed is the solver's choice, not an answer of the encoding
         c07_sat._apply(cl, o)
-        return {"clauses": cl.canon_clauses(), "models": sorted(cl.projected_models())}
+        return {"models": sorted(cl.projected_models())}
 
 
 class _RejectClient:
